@@ -191,8 +191,12 @@ def case_array(ctx, rng):
         judge_forms(ctx, op, forms, ref, d.conj().transpose(), wit, charge=R.neg(sym, x.charge), nontrivial=nt)
     elif op == "squeeze":
         ones = [i for i, ix in enumerate(x.indices) if ix.size_total == 1]
-        mode = rng.choice(["all", "one", "some"])
-        if mode == "all" or not ones:
+        mode = rng.choice(["all", "one", "some", "none-selected"])
+        if mode == "none-selected":
+            # an EMPTY selection removes nothing (numpy.squeeze(d, axis=()) is d)
+            axis = rng.choice([(), []])
+            rem = []
+        elif mode == "all" or not ones:
             axis = None
             rem = ones
         elif mode == "one":
